@@ -22,9 +22,11 @@ PRODUCT = {"np.dot", "np.inner", "np.vdot", "np.multiply"}
 
 
 class Homog:
-    def __init__(self, r: R, ctx, seeds: Dict[str, Fraction]):
+    def __init__(self, r: R, ctx, seeds: Dict[str, Fraction], attr=None, use_defs: bool = True):
         self.r, self.ctx, self.fi = r, ctx, ctx.fi
         self.seeds = dict(seeds)
+        self.attr = attr  # optional: degree of an attribute access (expression -> degree or "skip")
+        self.use_defs = use_defs
         self.defs: Dict[str, list] = {}
         for a in ast.walk(self.fi.node):
             if isinstance(a, ast.Assign) and len(a.targets) == 1 and isinstance(a.targets[0], ast.Name):
@@ -89,7 +91,7 @@ class Homog:
                 return Fraction(0) if isinstance(s, tuple) else s
             if e.id in self._busy:
                 return ANY  # accumulator on its own right-hand side: neutral
-            ds = self.defs.get(e.id)
+            ds = self.defs.get(e.id) if self.use_defs else None
             if not ds:
                 return None
             self._busy.add(e.id)
@@ -104,6 +106,12 @@ class Homog:
                 self._busy.discard(e.id)
         if isinstance(e, ast.UnaryOp) and isinstance(e.op, (ast.USub, ast.UAdd)):
             return self.deg(e.operand)
+        if isinstance(e, ast.Attribute) and self.attr is not None:
+            a = self.attr(e)
+            if a != "skip":
+                return a
+        if isinstance(e, ast.BinOp) and isinstance(e.op, ast.Mult) and any(isinstance(x, (ast.List, ast.Tuple)) and x.elts and all(self.const(y) is not None for y in x.elts) for x in (e.left, e.right)):
+            return ANY  # [1] * n: a list of literal numbers stands for "no dimension of its own"
         if isinstance(e, ast.BinOp):
             if isinstance(e.op, (ast.Add, ast.Sub)):
                 return self._add(self.deg(e.left), self.deg(e.right))
@@ -134,13 +142,24 @@ class Homog:
                 out = self._add(out, self.deg(x))
             return out
         if isinstance(e, (ast.GeneratorExp, ast.ListComp)):
-            sub = Homog(self.r, self.ctx, self.seeds)
+            sub = Homog(self.r, self.ctx, self.seeds, self.attr, self.use_defs)
             sub.defs = self.defs
             for g in e.generators:
-                d = self.deg(g.iter)
-                for x in ast.walk(g.target):
-                    if isinstance(x, ast.Name) and d is not None and d != ANY:
-                        sub.seeds[x.id] = d
+                it = g.iter
+                if isinstance(it, ast.Call) and seg(it.func) == "enumerate" and it.args and isinstance(g.target, ast.Tuple) and len(g.target.elts) == 2:
+                    pairs = [(g.target.elts[1], it.args[0])]
+                elif isinstance(it, ast.Call) and seg(it.func) == "zip" and isinstance(g.target, ast.Tuple) and len(g.target.elts) == len(it.args):
+                    pairs = list(zip(g.target.elts, it.args))
+                else:
+                    pairs = [(g.target, it)]
+                for tgt, src in pairs:
+                    d = self.deg(src)
+                    for x in ast.walk(tgt):
+                        if isinstance(x, ast.Name):
+                            if d is not None and d != ANY:
+                                sub.seeds[x.id] = d
+                            elif not self.use_defs:
+                                sub.seeds.pop(x.id, None)
             return sub.deg(e.elt)
         if isinstance(e, ast.Subscript):
             return self.deg(e.value)
@@ -151,6 +170,13 @@ class Homog:
                 for a in e.args:
                     out = self._add(out, self.deg(a))
                 return out
+            if fn == "Fraction" and len(e.args) == 2:
+                a, b = self.deg(e.args[0]), self.deg(e.args[1])
+                if a is None or b is None or b == ANY:
+                    return None
+                return ANY if a == ANY else a - b
+            if fn == "int" and e.args:
+                return self.deg(e.args[0])
             if fn in HALF and e.args:
                 a = self.deg(e.args[0])
                 return a if a in (None, ANY) else a / 2
@@ -275,3 +301,196 @@ def tol_homog(r: R, chk, qual: str, point_fields, stated: float, rule="TOL-HOMOG
                    func=qual, construct=f"degree-{d} quantity compared with {cv:g}")
     chk.note(f"{rule}: {n} tolerance comparison(s) of a point-derived quantity decided in {qual}, {und} of unknown degree left undecided")
     return n
+
+
+# ------------------------------------------------------------------------------------------------
+# WEIGHT-HOMOG: flow-sensitive degree of homogeneity in the weights of a rational curve
+class Flow:
+    """Statements of one function are walked in order; every local holds the SET of degrees it may have (one per path, at most
+    MAXSET, else undecided).  A rational curve does not change when all its weights are multiplied by the same factor, so the
+    control points it is given must be of degree 0 in the weights (numerators w*P have degree 1, weights have degree 1)."""
+
+    MAXSET = 4
+
+    def __init__(self, r: R, ctx, attr, call_result):
+        self.r, self.ctx, self.fi = r, ctx, ctx.fi
+        self.attr, self.call_result = attr, call_result
+        self.stores = []  # (receiver text, field, degree set, node)
+
+    def degs(self, e, env):
+        names = sorted({x.id for x in ast.walk(e) if isinstance(x, ast.Name) and x.id in env})
+        combos = [{}]
+        for nm in names:
+            vals = env[nm]
+            combos = [dict(c, **{nm: v}) for c in combos for v in vals]
+            if len(combos) > 16:
+                return frozenset({None})
+        out = set()
+        for c in combos:
+            if any(v is None for v in c.values()):
+                # an undecided operand: evaluate without it
+                seeds = {k: v for k, v in c.items() if v is not None}
+            else:
+                seeds = c
+            h = Homog(self.r, self.ctx, {k: (v if v != ANY else ("const", 0)) for k, v in seeds.items()}, self.attr, use_defs=False)
+            out.add(h.deg(e))
+        return frozenset(out) if len(out) <= self.MAXSET else frozenset({None})
+
+    @staticmethod
+    def join(a, b):
+        if a is None:
+            return b
+        if b is None:
+            return a
+        out = {}
+        for k in set(a) | set(b):
+            va, vb = a.get(k), b.get(k)
+            if va is None or vb is None:
+                out[k] = frozenset({None}) | (va or vb)
+            else:
+                out[k] = va | vb
+            if len(out[k]) > Flow.MAXSET:
+                out[k] = frozenset({None})
+        return out
+
+    def bind(self, tgt, src, env):
+        if isinstance(tgt, ast.Name):
+            if isinstance(src, ast.Call):
+                res = self.call_result(src, 1)
+                if res is not None:
+                    env[tgt.id] = frozenset({res[0]})
+                    return
+            env[tgt.id] = self.degs(src, env) if src is not None else frozenset({None})
+        elif isinstance(tgt, (ast.Tuple, ast.List)):
+            if isinstance(src, (ast.Tuple, ast.List)) and len(src.elts) == len(tgt.elts):
+                vals = [self.degs(x, env) for x in src.elts]
+                for t, v in zip(tgt.elts, vals):
+                    if isinstance(t, ast.Name):
+                        env[t.id] = v
+                return
+            if isinstance(src, ast.Call):
+                res = self.call_result(src, len(tgt.elts))
+                if res is not None:
+                    for t, v in zip(tgt.elts, res):
+                        if isinstance(t, ast.Name):
+                            env[t.id] = frozenset({v})
+                    return
+            for t in tgt.elts:
+                self.bind(t, None, env)
+        elif isinstance(tgt, ast.Attribute) and src is not None:
+            self.stores.append((seg(tgt.value), tgt.attr, self.degs(src, env), tgt))
+
+    def bind_loop(self, tgt, it, env):
+        if isinstance(it, ast.Call) and seg(it.func) == "zip" and isinstance(tgt, ast.Tuple) and len(tgt.elts) == len(it.args):
+            for t, s_ in zip(tgt.elts, it.args):
+                self.bind(t, s_, env)
+        elif isinstance(it, ast.Call) and seg(it.func) == "enumerate" and it.args and isinstance(tgt, ast.Tuple) and len(tgt.elts) == 2:
+            self.bind(tgt.elts[0], ast.Constant(value=1), env)
+            self.bind(tgt.elts[1], it.args[0], env)
+        else:
+            self.bind(tgt, it, env)
+
+    def block(self, stmts, env):
+        for st in stmts:
+            if env is None:
+                return None
+            env = self.stmt(st, env)
+        return env
+
+    def stmt(self, st, env):
+        if isinstance(st, ast.Assign):
+            for t in st.targets:
+                self.bind(t, st.value, env)
+            return env
+        if isinstance(st, ast.AugAssign):
+            if isinstance(st.target, ast.Name):
+                self.bind(st.target, ast.BinOp(left=ast.Name(id=st.target.id, ctx=ast.Load()), op=st.op, right=st.value), env)
+            return env
+        if isinstance(st, (ast.Return, ast.Raise)):
+            return None
+        if isinstance(st, ast.If):
+            a = self.block(st.body, dict(env))
+            b = self.block(st.orelse, dict(env))
+            return self.join(a, b)
+        if isinstance(st, (ast.For, ast.While)):
+            cur = env
+            for _ in range(2):
+                e2 = dict(cur)
+                if isinstance(st, ast.For):
+                    self.bind_loop(st.target, st.iter, e2)
+                e2 = self.block(st.body, e2)
+                cur = self.join(cur, e2)
+            return self.block(st.orelse, cur) if st.orelse else cur
+        if isinstance(st, ast.Try):
+            a = self.block(st.body, dict(env))
+            out = self.join(a, None)
+            for h in st.handlers:
+                out = self.join(out, self.block(h.body, dict(env)))
+            if st.orelse and a is not None:
+                out = self.join(out, self.block(st.orelse, a))
+            if st.finalbody and out is not None:
+                out = self.block(st.finalbody, out)
+            return out
+        if isinstance(st, ast.With):
+            return self.block(st.body, env)
+        return env
+
+    def run(self, seeds):
+        env = {k: frozenset({v}) for k, v in seeds.items()}
+        self.block(self.fi.node.body, env)
+        return self.stores
+
+
+def weight_homog(r: R, chk, quals, rule="WEIGHT-HOMOG"):
+    """an object that is given weights and control points in `q` gets control points of degree 0 in the weights"""
+    def attr(e):
+        if e.attr == "weights":
+            return Fraction(1)
+        if e.attr in ("ctrlpoints", "knotvector", "npts", "degree", "knots", "limits"):
+            return Fraction(0)
+        return "skip"
+
+    total = 0
+    for q in quals:
+        ctx = r.root(q)
+        fi = ctx.fi
+
+        def call_result(call, n, ctx=ctx):
+            crs = [c for c in ctx.calls if c.node is call and c.callees]
+            names = {f.qual for c in crs for f in c.callees}
+            v = ctx.val(call.func)
+            names |= {t.split(":", 1)[1] for t in (v.ty if v is not None else ()) if t.startswith("func:")}
+            if names and all(nm.startswith("heavy.LeastSquare.") or nm.startswith("heavy.Operations.") for nm in names):
+                return [Fraction(0)] * n  # transformation / error matrices: invariant under a scaling of the weights
+            return None
+
+        seeds = {}
+        for p_ in fi.params:
+            if "weight" in p_:
+                seeds[p_] = Fraction(1)
+            elif p_ in ("matrix",) or "vector" in p_ or p_ == "nodes":
+                seeds[p_] = Fraction(0)
+        fl = Flow(r, ctx, attr, call_result)
+        stores = fl.run(seeds)
+        byrecv = {}
+        seen_nodes = {}
+        for recv, field, ds, node in stores:
+            seen_nodes[id(node)] = (recv, field, seen_nodes.get(id(node), (None, None, frozenset()))[2] | ds, node)
+        for recv, field, ds, node in seen_nodes.values():
+            byrecv.setdefault(recv, {}).setdefault(field, []).append((ds, node))
+        for recv, fields in sorted(byrecv.items()):
+            if "weights" not in fields or "ctrlpoints" not in fields:
+                continue
+            if not any(d not in (None, ANY) for ds, _ in fields["weights"] for d in ds):
+                continue  # weights only ever set to None / literals here
+            for ds, node in fields["ctrlpoints"]:
+                decided = [d for d in ds if d is not None]
+                if not decided:
+                    continue
+                total += 1
+                bad = sorted(d for d in decided if d != ANY and d != 0)
+                chk.ob(rule, f"{q}: `{seg(node, 30)} = …` is of degree 0 in the weights", not bad, loc=r.loc(ctx, node),
+                       detail="" if not bad else f"{q}: the control points stored by `{seg(node, 30)} = …` are homogeneous of degree {', '.join(str(b) for b in bad)} in the weights on some path (a matrix applied to the unweighted points and then divided by the new weights) while `{recv}` is given weights in the same function: multiplying all weights by a constant — the same curve — changes the result, so this cannot be the same rational curve; the weighted numerators w_i*P_i have to be transformed and divided by the transformed weights",
+                       func=q, construct="control points not invariant under a scaling of the weights")
+    chk.note(f"{rule}: {total} control-point store(s) of objects that also receive weights decided in {', '.join(quals)}")
+    return total
